@@ -2,7 +2,7 @@
 """Maintenance helper (not run by checks): refresh the commit hashes of 'fixed' entries in known_findings.json from /repo's log."""
 import json, subprocess, re
 log = subprocess.run(['git', '-C', '/repo', 'log', '--format=%h %s'], stdout=subprocess.PIPE, text=True).stdout.split('\n')
-KEYS = {'D1': 'snext read one byte past', 'D3a': 'match_double ran strtod', 'D2': 'appended the chunk terminator', 'D3b': 'chunk-size line was handed to strtol',
+KEYS = {'D12': 'PollableQueue::pop could swallow', 'D10': 'asyncWriteImpl busy-waited', 'D9': 'a write resumed after EAGAIN', 'D1': 'snext read one byte past', 'D3a': 'match_double ran strtod', 'D2': 'appended the chunk terminator', 'D3b': 'chunk-size line was handed to strtol',
         'D4': 'reserve() was called with a length taken', 'D16': 'reported complete before its final CRLF', 'D5': 'parser reset kept the body step',
         'D6': 'status line shorter than the HTTP version', 'D3c': 'status code token was handed to strtol'}
 kf = json.load(open('/verif/known_findings.json'))
